@@ -1,6 +1,7 @@
 import ServiceModel.Proofs.Genesis
 import ServiceModel.Proofs.EarnKeys
 import ServiceModel.Proofs.Valid
+import ServiceModel.Proofs.Restart
 /-!
 # C19 — State survives export and re-import; zero-height export returns all escrow
 
@@ -218,5 +219,62 @@ theorem export_import_export (hc : CfgOK cfg p) {s : State} (hr : Reachable cfg 
     rcases (hpr k pr).mp hg with ⟨b, hm, _⟩ | ⟨_, h2⟩
     · rw [(hget2 k b).mpr hm]; rfl
     · cases h2
+
+/-! ### the chain after the restart
+
+`restart` (Model/Restart.lean) is what a zero-height restart does to the module: preparation, export, `InitGenesis`
+into a fresh store, balances carried by the bank module. "State survives export and re-import" is read as: the
+restarted chain starts from a state that has the same exportable content and satisfies every state invariant the
+property theorems C01, C03, C10–C16 rest on — and therefore so does every state it reaches afterwards. -/
+
+/-- For every reachable export point the restart succeeds; the state it produces exports the same genesis and
+    satisfies every invariant, under the same configuration and parameters. -/
+theorem restart_succeeds_and_keeps_invariants (hc : CfgOK cfg p) {s : State} (hr : Reachable cfg p h0 t0 s)
+    (height time : Int) :
+    ∃ s0, restart s height time = some s0 ∧ exportG s0 = exportG (prep s).s ∧ Inv s0 ∧
+      s0.cfg = s.cfg ∧ s0.params = s.params := by
+  obtain ⟨s0, h1, h2, h3, h4, _, _, h7⟩ := restart_inv hc hr height time
+  exact ⟨s0, h1, h7, h2, h3, h4⟩
+
+/-- Every state of the restarted chain — any number of further well-formed operations and blocks — satisfies the
+    invariants: in particular the request escrow holds exactly the pending fees plus the unwithdrawn earnings (C01)
+    and the deposit account exactly the recorded deposits (C03). -/
+theorem restarted_chain_stays_backed (hc : CfgOK cfg p) {s : State} (hr : Reachable cfg p h0 t0 s)
+    (height time : Int) {s0 s1 : State} (h0' : restart s height time = some s0) (hr1 : ReachableFrom s0 s1) :
+    Inv s1 ∧
+    balOf s1.bank.bal s1.cfg.escrow = activeFees s1 + earnedSum s1 ∧
+    balOf s1.bank.bal s1.cfg.deposit = depositSum s1 := by
+  obtain ⟨s0', h1, h2, _⟩ := restart_inv hc hr height time
+  rw [h0'] at h1; injection h1 with h1; subst h1
+  have hi := inv_reachableFrom h2 hr1
+  refine ⟨hi, ?_, hi.b.backed⟩
+  rw [activeFees_eq]; exact hi.m.escrow
+
+/-- The restarted chain starts with nothing in flight: no queue entry, request, response, pending marker or
+    earning, every context paused with its batch completed, and an empty request escrow. -/
+theorem restarted_chain_starts_quiescent (hc : CfgOK cfg p) {s : State} (hr : Reachable cfg p h0 t0 s)
+    (height time : Int) {s0 : State} (h0' : restart s height time = some s0) :
+    balOf s0.bank.bal s0.cfg.escrow = 0 ∧
+    ∀ c x, get s0.ctxs c = some x → x.state = .paused ∧ x.bstate = .completed := by
+  obtain ⟨s0', h1, h2, h3, _, _, _, h7⟩ := restart_inv hc hr height time
+  rw [h0'] at h1; injection h1 with h1; subst h1
+  obtain ⟨hnp, _⟩ := prep_succeeds_and_empties_escrow hc hr
+  constructor
+  · -- the bank is the one the preparation left; the configuration is unchanged
+    unfold restart at h0'
+    rw [hnp] at h0'; dsimp only at h0'
+    split at h0'
+    · cases h0'
+    · injection h0' with h0'; subst h0'
+      have := (prep_succeeds_and_empties_escrow hc hr).2
+      rw [h3] at *
+      exact this
+  · intro c x hx
+    have hex : entries s0.ctxs = entries (prep s).s.ctxs := by
+      have := congrArg GenesisState.ctxs h7
+      exact this
+    have hm : (c, x) ∈ entries (prep s).s.ctxs := by rw [← hex]; exact (mem_entries _ _ _).mpr hx
+    obtain ⟨a1, a2, _⟩ := prep_ctxs s hnp c x ((mem_entries _ _ _).mp hm)
+    exact ⟨a1, a2⟩
 
 end SM.C19
